@@ -24,7 +24,7 @@ from rtmon import common
 LEVEL = "exploration"
 NEEDS_RUST = True
 WORKERS = 14
-CASE_TIMEOUT = 240
+CASE_TIMEOUT = 150
 QUIESCENCE_SCOPE = "process"   # helpers are polling feeders only
 QUIESCENCE_AFTER = 60.0
 REQUIRED_OBS = ["iterator_measurements", "dataset_measurements", "infinite_streams_taken", "rust_measurements"]
@@ -389,6 +389,11 @@ def on_died(case: dict, record: dict) -> dict | None:
 
 def on_timeout(case: dict, record: dict) -> dict | None:
     diag = record.get("diag", {})
+    grown = record.get("rss_end", 0) - record.get("rss_start", 0)
+    if diag.get("verdict") == "active" and grown > 400 * 1024 ** 2:
+        return {"violation": "take-does-not-terminate/memory-grows",
+                "msg": f"{case}: taking {case.get('k')} elements had not finished after {record.get('elapsed', 0):.0f}s, the "
+                       f"process is busy and its resident memory grew by {grown >> 20} MiB (the stream is being materialised)"}
     if diag.get("verdict") == "quiescent":
         return {"violation": "take-blocked", "msg": f"{case}: quiescent process; stacks: {diag.get('stacks', '')[-1200:]}"}
     return None
